@@ -168,6 +168,12 @@ def run(case, max_steps=120000):
             if not sim.aborted:
                 rec['end'] = sim.now
 
+        if case.get('func_attrs'):
+            # the application keeps attributes of its own on the function it hands over; their names mean nothing to
+            # the wrapper and must not influence it
+            func.timeout = 999.0
+            func.note = 'application data'
+
         def delivered_now():
             got = set()
             for r in calls:
